@@ -532,12 +532,22 @@ class Prover:
         if d is None:
             return
         opt = None
+        enum_index = False
         if d[1] != "term":
             rv = d[2]["rv"]
             if rv["r"] == "use" and rv["a"].get("o") in ("copy", "move"):
                 p = rv["a"]["p"]
                 if len(p) == 2 and p[0][0] == "dc" and list(p[1]) == ["f", 0]:
                     opt = rv["a"]["l"]
+                elif len(p) == 3 and p[0][0] == "dc" and list(p[1]) == ["f", 0] and list(p[2]) == ["f", 0]:
+                    opt, enum_index = rv["a"]["l"], True          # `(i, x)` of Enumerate: ((_opt as Some).0).0
+                elif len(p) == 1 and list(p[0]) == ["f", 0]:
+                    pd = v.single_def(rv["a"]["l"])
+                    if pd is not None and pd[1] != "term" and pd[2]["rv"]["r"] == "use" \
+                            and pd[2]["rv"]["a"].get("o") in ("copy", "move"):
+                        pp_ = pd[2]["rv"]["a"]["p"]
+                        if len(pp_) == 2 and pp_[0][0] == "dc" and list(pp_[1]) == ["f", 0]:
+                            opt, enum_index = pd[2]["rv"]["a"]["l"], True
         else:
             t = d[2]
             name = ir.callee_name(t["fn"]) or ""
@@ -553,6 +563,44 @@ class Prover:
         t = od[2]
         name = ir.callee_name(t["fn"]) or ""
         args = t["args"]
+        if enum_index:
+            # index yielded by `slice.iter().enumerate()` / `iter_mut().enumerate()`: 0 <= i <= len - 1
+            if "enumerate::Enumerate" not in name or not name.endswith("::next"):
+                return
+            if not args or args[0].get("o") not in ("copy", "move") or args[0]["p"]:
+                return
+            it = args[0]["l"]
+            seen_enum = False
+            for _ in range(10):
+                dd = v.single_def(it)
+                if dd is None:
+                    return
+                if dd[1] == "term":
+                    n2 = ir.callee_name(dd[2]["fn"]) or ""
+                    a2 = dd[2]["args"]
+                    if not a2 or a2[0].get("o") not in ("copy", "move") or a2[0]["p"]:
+                        return
+                    if n2 in ITER_IDENT or n2.endswith("IntoIterator>::into_iter"):
+                        it = a2[0]["l"]
+                        continue
+                    if n2.endswith("Iterator::enumerate") or n2.endswith("::enumerate"):
+                        seen_enum = True
+                        it = a2[0]["l"]
+                        continue
+                    if seen_enum and n2 in ("core::slice::<impl [T]>::iter", "core::slice::<impl [T]>::iter_mut"):
+                        lf = self.len_form(a2[0]["l"])
+                        if lf is not None:
+                            self._fact(a, lf.add(atom_form(a), -1).add(Form(1), -1))   # len - i - 1 >= 0
+                    return
+                rv2 = dd[2]["rv"]
+                if rv2["r"] == "ref" and (rv2["pl"]["p"] == [] or rv2["pl"]["p"] == ["deref"]):
+                    it = rv2["pl"]["l"]
+                    continue
+                if rv2["r"] == "use" and rv2["a"].get("o") in ("copy", "move") and not rv2["a"]["p"]:
+                    it = rv2["a"]["l"]
+                    continue
+                return
+            return
         if name in v.prog.bodies:
             # a private helper that returns the position (plus a constant) of an element of a slice it was given:
             # `fn significant_len(x: &[u64]) -> Option<usize> { x.iter().rposition(..).map(|i| i + 1) }`
